@@ -160,10 +160,10 @@ CHECKS = {
             {"FRUGAL_MAX_INLINE_IL_SIZE": "0x101", "FRUGAL_MAX_INLINE_DEPTH": "2"},
             {},
         ],
-        rule="configurations = worker processes started with 12 FRUGAL_MAX_INLINE_* settings (decimal, hex, binary, octal, underscore, MaxInt64; one control process with empty environment and no legacy call); inside each, rapid draws (type, value, message, 4 lists of legacy calls: Pretouch on valid/invalid/nil/int/map arguments with option constructors at 0,-1,MaxInt..., NoJIT, setters, GetStats) placed before size, encode, decode and after; "
+        rule="configurations = worker processes started with 12 FRUGAL_MAX_INLINE_* settings (decimal, hex, binary, octal, underscore, MaxInt64; one control process with empty environment and no legacy call); inside each, rapid draws (type, value, message, 4 lists of legacy calls: Pretouch on valid/invalid/nil/int/map arguments with option constructors at 0,-1,MaxInt..., NoJIT, setters, GetStats) placed before size, encode, decode and after; messages are reader-valid edits (shuffle, drop, insert, retype, renumber, odd bool bytes); "
              "non-trivial = non-default environment and >=3 legacy calls around the codec calls; distinct by (environment, placement, type)",
-        technique="property-based testing (rapid) over configurations: child processes per environment setting, legacy-call placements drawn per case, codec results compared with the configuration-independent reference model; API contracts of the no-op controls",
-        level_text="Each configuration process checks sizes, encoded bytes and decoded values of random (type, value, message) triples against the reference model while legacy calls are interleaved at drawn placements; since the model is the same in every process, equal-to-model in all of them means identical across settings, the control process included. Pretouch must return nil and never panic, setters return their argument, GetStats is zero.",
+        technique="property-based testing (rapid) over configurations: child processes per environment setting, legacy-call placements drawn per case; two oracles: the configuration-independent reference model, and a differential against a fresh control process (empty FRUGAL_* environment, no legacy call) on size, encoding, decode outcome and the re-encoding of the decoded value; API contracts of the no-op controls",
+        level_text="Each configuration process checks sizes, encoded bytes and decoded values of random (type, value, message) triples against the reference model while legacy calls are interleaved at drawn placements; since the model is the same in every process, equal-to-model in all of them means identical across settings, the control process included. In addition one case in three, and every case whose message carries a bool byte other than 0/1 (one message in three may), is re-run in a brand-new control process and the outcomes (size, canonical encoding, decode n/error, decoded value, canonical re-encoding of the decoded value) must be equal: this reaches results the model leaves open. Pretouch must return nil and never panic, setters return their argument, GetStats is zero.",
         level_note="Invalid environment values panic at package init by design and are outside the property.",
     ),
     "C18": dict(
@@ -182,12 +182,12 @@ CHECKS = {
         quick=dict(procs=6, checks=250, timeout=900),
         thorough=dict(procs=32, checks=1500, timeout=2400, race=True),
         env={"GODEBUG": "clobberfree=1"},
-        rule="rapid draws a history of 8-18 steps: decode (random type without nocopy fields; messages with strings of 0..600 bytes, scalar lists of alignment 1/2/4/8 up to 90 elements so that cumulative sizes cross the 2048-byte block and single objects the 256-byte large-object threshold, pointer-bearing lists/maps), "
+        rule="rapid draws a history of 8-18 steps: decode (random type, anonymous or from the named universe, one string/binary field in three declared nocopy; messages with strings of 0..600 bytes, scalar lists of alignment 1/2/4/8 up to 90 elements so that cumulative sizes cross the 2048-byte block and single objects the 256-byte large-object threshold, pointer-bearing lists/maps), "
              "clobber (overwrite an earlier input buffer with 0xA5), garbage (heap churn), gc (two forced collections under GODEBUG=clobberfree=1), drop; up to 6 decoded objects stay live; "
              "non-trivial = (>=3 extents of >=2 alignments or a pointer-bearing backing array) and a GC after a buffer overwrite; distinct by hash(history, types, messages)",
         technique="property-based testing (rapid), stateful: histories of decodes, buffer overwrites and forced GCs; extent oracle (alignment, pairwise disjointness across all live objects, no overlap with the input) from a reflect+unsafe walk, value-stability oracle after every step",
         level_text="After every step of a generated history every live decoded object must still lift to the value it had when decoded (freed or unscanned memory would be clobbered by the collector), and all extents (pointees, slice arrays to capacity, string bytes, holder bytes) of all live objects must be aligned, pairwise disjoint and outside every input buffer. Thorough tier runs race-instrumented (checkptr).",
-        level_note="Map bucket memory is owned by the Go runtime and not walked; nocopy fields are excluded here (C14).",
+        level_note="Map bucket memory is owned by the Go runtime and not walked; The bytes of a field declared nocopy are exempt from the no-overlap-with-input rule and, once its input buffer has been overwritten, from the value comparison (C14 covers them); everything else in the same object, including strings next to or below a nocopy field, is held to the full rule.",
     ),
     "C07": dict(
         test="TestC07",
